@@ -38,7 +38,11 @@ import (
 var goEnv = append(os.Environ(), "GOFLAGS=-mod=mod", "GOPROXY=off", "GOSUMDB=off", "GOTOOLCHAIN=local")
 
 func runPlugin(bin string, fds []*descriptorpb.FileDescriptorProto, gen string, param string) (*pluginpb.CodeGeneratorResponse, string) {
-	req := &pluginpb.CodeGeneratorRequest{FileToGenerate: []string{gen}, ProtoFile: fds,
+	return runPluginMulti(bin, fds, []string{gen}, param)
+}
+
+func runPluginMulti(bin string, fds []*descriptorpb.FileDescriptorProto, gen []string, param string) (*pluginpb.CodeGeneratorResponse, string) {
+	req := &pluginpb.CodeGeneratorRequest{FileToGenerate: gen, ProtoFile: fds,
 		CompilerVersion: &pluginpb.Version{Major: proto.Int32(3), Minor: proto.Int32(21), Patch: proto.Int32(12)}}
 	if param != "" {
 		req.Parameter = proto.String(param)
@@ -369,6 +373,77 @@ func main() {
 			}
 		}
 	}
+	// one request naming SEVERAL files to generate (what protoc sends for `protoc a.proto b.proto`): the files
+	// returned must be exactly the ones the single-file requests returned, whatever the order
+	var multiReqs, multiFiles int64
+	byID := map[string]schema{}
+	for _, s := range scs {
+		byID[s.id] = s
+	}
+	for _, rt := range corpus.Runtimes {
+		for _, pair := range [][2]string{{"p3", "p3imp"}, {"p2", "p2imp"}, {"p2", "p3"}, {"p2ext", "names"}, {"p2nestreq", "p2"}, {"p3wkt", "p2wkt"}} {
+			a, okA := byID[string(rt)+"/"+pair[0]]
+			b, okB := byID[string(rt)+"/"+pair[1]]
+			if !okA || !okB {
+				continue
+			}
+			var fds []*descriptorpb.FileDescriptorProto
+			seen := map[string]bool{}
+			for _, f := range append(append([]*descriptorpb.FileDescriptorProto{}, a.fds...), b.fds...) {
+				if !seen[f.GetName()] {
+					seen[f.GetName()] = true
+					fds = append(fds, f)
+				}
+			}
+			for _, o := range []optSet{{rt.APIVersion(), "false", "false", ""}, {rt.APIVersion(), "true", "false", ""}} {
+				ra, rb := results[a.id+"|"+o.String()], results[b.id+"|"+o.String()]
+				if ra == nil || rb == nil || ra.err != "" || rb.err != "" || len(ra.names) != len(ra.files) || len(rb.names) != len(rb.files) {
+					continue // already reported above
+				}
+				want := map[string]string{}
+				for n, c := range ra.files {
+					want[n] = c
+				}
+				for n, c := range rb.files {
+					want[n] = c
+				}
+				for _, order := range [][]string{{a.gen, b.gen}, {b.gen, a.gen}} {
+					id := fmt.Sprintf("%s/%s+%s|%s|order=%s", rt, pair[0], pair[1], o.String(), strings.Join(order, ","))
+					sig := fmt.Sprintf("C16/multi-file-request-differs-from-single-file-requests/%s/%s+%s/permessage=%s", rt, pair[0], pair[1], o.perMsg)
+					resp, e := runPluginMulti(plugin, fds, order, o.param())
+					multiReqs++
+					if e != "" || resp.Error != nil {
+						r.Fail(sig, id, map[string]any{"error": e + resp.GetError()})
+						continue
+					}
+					got := map[string]string{}
+					for _, f := range resp.File {
+						if _, dup := got[f.GetName()]; dup {
+							r.Fail(sig, id+"|"+f.GetName(), map[string]any{"problem": "file emitted twice"})
+						}
+						got[f.GetName()] = f.GetContent()
+					}
+					for n, c := range want {
+						multiFiles++
+						gc, present := got[n]
+						switch {
+						case !present:
+							r.Fail(sig, id+"|"+n, map[string]any{"problem": "file missing from the multi-file response"})
+						case gc != c:
+							r.Fail(sig, id+"|"+n, map[string]any{"problem": "content differs from the single-file request", "multi_head": trunc(gc, 300), "single_head": trunc(c, 300)})
+						}
+					}
+					for n := range got {
+						if _, exp := want[n]; !exp {
+							r.Fail(sig, id+"|"+n, map[string]any{"problem": "unexpected extra file"})
+						}
+					}
+				}
+			}
+		}
+	}
+	r.Set("multi_file_requests", multiReqs)
+	r.Set("multi_file_outputs_compared_with_single_file_requests", multiFiles)
 	r.Set("function_bodies_compared_single_vs_permessage", bodiesCompared)
 	r.Set("unsafe_outputs_compared", unsafeCompared)
 	// compile every compilable option set with the runtime's message types
@@ -420,7 +495,7 @@ func main() {
 	r.Nontrivial(ok)
 	r.Sample(map[string]any{"schema": scs[0].id, "messages": scs[0].msgs, "options": opts[5].param()})
 	r.Sample(map[string]any{"schema": scs[len(scs)-1].id, "messages": len(scs[len(scs)-1].msgs), "note": "repository example schema, descriptors recovered from the registered file"})
-	r.Rule("full product: every corpus file of every runtime flavour + the repository's three google-v2 example schemas x {apiversion v1,v2} x {single file, file per message} x {unsafe off,on} x {specialname none, Size}; each request is run twice through the plug-in built from the current sources: no error, byte-identical responses, documented file names (single: <prefix>.pb.fm.go; per message: <prefix>_<lower(message)>.pb.fm.go, pairwise distinct also case-insensitively, one per message), every file parses; per-message function bodies equal the single-file ones; enableunsafedecode only adds the SetMode lines (one per message); and the outputs of 5 option sets are compiled together with the runtime's message types (matching apiversion). distinct_nontrivial = (schema, option) requests that produced output and passed the per-request checks.")
+	r.Rule("full product: every corpus file of every runtime flavour + the repository's three google-v2 example schemas x {apiversion v1,v2} x {single file, file per message} x {unsafe off,on} x {specialname none, Size}; each request is run twice through the plug-in built from the current sources: no error, byte-identical responses, documented file names (single: <prefix>.pb.fm.go; per message: <prefix>_<lower(message)>.pb.fm.go, pairwise distinct also case-insensitively, one per message), every file parses; per-message function bodies equal the single-file ones; enableunsafedecode only adds the SetMode lines (one per message); requests naming two files to generate (6 file pairs per runtime, both orders, single-file and per-message mode) return exactly the files of the two single-file requests; and the outputs of 5 option sets are compiled together with the runtime's message types (matching apiversion). distinct_nontrivial = (schema, option) requests that produced output and passed the per-request checks.")
 	r.Assume("invalid option VALUES are outside the quantifier; apiversion is compiled only with its matching runtime (v1: gogo, legacy; v2: gv2, gv1)")
 	r.Assume("schemas with proto3 optional are only generated for the google flavours (protoc-gen-gogo does not support them)")
 	r.Finish()
